@@ -40,6 +40,8 @@ func enumerate(tb *tables, sel *selector, emit func(Case)) {
 			enumBool(g, sel, emit)
 		case "farith":
 			enumFloat(g, sel, emit)
+		case "fcon":
+			enumFloatConst(g, sel, emit)
 		case "fconv":
 			enumFloatConv(g, sel, emit)
 		case "itof":
@@ -299,6 +301,35 @@ func enumFloat(g *group, sel *selector, emit func(Case)) {
 					expand(base, []string{"V"}, []string{"stmt"}, sel, emit)
 				}
 			}
+		}
+	}
+}
+
+// enumFloatConst: operand b is an untyped constant that the format cannot hold, written as an
+// exact hexadecimal literal; it is rounded once where it meets the typed operand a (forms: literal,
+// untyped named constant, typed named constant and variable initialised by the literal).
+func enumFloatConst(g *group, sel *selector, emit func(Case)) {
+	T := g.F
+	x := g.FA
+	at := x.varInit(T)
+	for _, r := range g.Rows {
+		y := rowF(r, "b")
+		bt := y.lit()
+		red := rowBool(r, "red")
+		row := T + " " + at + " const " + bt
+		for _, op := range []string{"add", "sub", "mul", "quo"} {
+			res := rowF(r, op)
+			if !res.spec() {
+				continue
+			}
+			base := Case{Cls: "float", Op: op, T: T, A: at, B: bt, AC: x.isConst(), BC: true, RT: T,
+				Res: res.printed(T), Cmp: fCmp(res), Red: red, Row: op + " " + row, NoAlt: true}
+			expand(base, []string{"VL", "VC", "VU", "VV"}, arithCtx, sel, emit)
+		}
+		for _, op := range cmpOps {
+			base := Case{Cls: "float", Op: op, T: T, A: at, B: bt, AC: x.isConst(), BC: true, RT: "bool",
+				Res: boolText(rowBool(r, op)), Red: red, Row: op + " " + row}
+			expand(base, []string{"VL", "VC", "VU", "VV"}, cmpCtx, sel, emit)
 		}
 	}
 }
